@@ -88,6 +88,12 @@ def check(run: Run) -> None:
     run.floor("C02.R2", n_builds, 5, "lambda_build sites in the simplifier")
     _check_make_args_unique(run, ctx, m)
 
+    # ---------------- R5: literal projection keeps python's choice among repeated keys
+    run.rule("C02.R5", "projection out of a dictionary literal with repeated (equal) constant keys selects the last entry, as python does")
+    from .c18 import check_last_key_wins
+
+    check_last_key_wins(run, ctx, m, cls, "C02.R5")
+
     # ---------------- R3
     vc = cls.methods.get("visit_Call")
     if vc is None:
